@@ -92,7 +92,7 @@ func (sd *solid) attrs() (pos, nrm, idx c17.Val) {
 	nrmAttr := constString(P.Pkg("modeling").Types, "NormalAttribute")
 	for _, rp := range sd.res.Returns() {
 		for _, ev := range rp.Events {
-			if ev.Kind == c17.EvMapUpdate && len(ev.Args) == 3 && ev.In == sd.fn {
+			if ev.Kind == c17.EvMapUpdate && len(ev.Args) == 3 && sd.k.own(sd.fn, ev.In) {
 				switch key, _ := c17.StrConst(ev.Args[1]); key {
 				case posAttr:
 					pos = ev.Args[2]
@@ -847,7 +847,7 @@ func (k *checker) sphereRadius(r *rec, fn *ssa.Function, allowCentre bool) {
 	seen := map[string]bool{}
 	for _, p := range sd.res.Paths {
 		for _, ev := range p.Events {
-			if ev.In != sd.fn || ev.Slice == nil {
+			if !k.own(sd.fn, ev.In) || ev.Slice == nil {
 				continue
 			}
 			var vs []c17.Val
